@@ -72,11 +72,14 @@ func (k kase) message() []byte {
 }
 
 func (k kase) common() keys.Common {
-	sess, src := k.Session, ""
+	sess, src, api := k.Session, "", ""
+	if strings.HasSuffix(sess, "+runner") { // the networked runner API instead of round-by-round
+		sess, api = strings.TrimSuffix(sess, "+runner"), "runner"
+	}
 	if strings.HasSuffix(sess, "+dkg") { // key shares from the real Gennaro DKG instead of the trusted dealer
 		sess, src = strings.TrimSuffix(sess, "+dkg"), "gennaro"
 	}
-	return keys.Common{Seed: k.Seed, Prop: "C01", Quorum: k.Quorum, Session: sess, KeySource: src, Message: k.message()}
+	return keys.Common{Seed: k.Seed, Prop: "C01", Quorum: k.Quorum, Session: sess, KeySource: src, API: api, Message: k.message()}
 }
 
 // outcome of one evaluated case
@@ -246,6 +249,9 @@ func generate(seed int64, tier string, search bool) []kase {
 			if i%4 == 1 {
 				sess += "+dkg"
 			}
+			if i%3 == 2 && (sp.proto == "dkls23" || sp.proto == "lindell22") {
+				sess += "+runner"
+			}
 			k := kase{Proto: sp.proto, Variant: sp.variants[i%len(sp.variants)], Policy: p.Text(), Quorum: q,
 				Msg: msgSpec(i/2, rng, sp.emptyOK), Session: sess, Seed: seed*1000 + int64(i)}
 			out = append(out, k)
@@ -319,7 +325,7 @@ func main() {
 	res.Rule = "full protocol runs of the real implementation (round functions driven through harness/internal/drive, every message through CBOR): " +
 		"protocol x variant (DKLs23 bbot/softspoken x k256/p256 x hash; Lindell22 x bip340/mina/vanilla(+neg,+le,p256); Boldyreva x short/long x basic/aug/pop; Lindell17; CGGMP21) x " +
 		"policy family (threshold, unanimity, CNF incl. non-ideal, hierarchical, gate trees with repeated leaves) x ID assignment (ordinal, sparse unsorted, >= 2^40) x " +
-		"quorum (minimal / non-minimal, presented unsorted) x message (empty, 1 byte, 10 kB, short random) x session contexts (seeded / real setup protocol) x key source (trusted dealer / real Gennaro DKG) x seed; " +
+		"quorum (minimal / non-minimal, presented unsorted) x message (empty, 1 byte, 10 kB, short random) x session contexts (seeded / real setup protocol) x key source (trusted dealer / real Gennaro DKG) x API (round-by-round / networked runner over an in-memory transport) x seed; " +
 		"non-trivial = the run got past construction of all cosigners"
 
 	var cases []kase
